@@ -37,7 +37,10 @@ impl TcpObservation {
     }
 
     pub(crate) fn distance_quirks(&self, other: &tcp::Signature) -> Option<u32> {
-        if self.quirks == other.quirks {
+        // quirks are a set: the order in which they are listed or extracted carries no meaning
+        let same_set = self.quirks.iter().all(|q| other.quirks.contains(q))
+            && other.quirks.iter().all(|q| self.quirks.contains(q));
+        if same_set {
             Some(tcp::TcpMatchQuality::High.as_score())
         } else {
             None
